@@ -6,7 +6,7 @@ from hypothesis import strategies as st
 from vf.core import CaseResult, Ctx, Violation, hyp_run
 from vf.gen.wfspec import wfspecs
 from vf.sim.c27_util import (
-    RSCase, dev_dump, ast_prereq_keys, edits, install_reload_monitor, snap_pool)
+    RSCase, crash_violations, dev_dump, harness_spin, ast_prereq_keys, edits, install_reload_monitor, snap_pool)
 from vf.sim.drive import outcome_maps, run_async
 from vf.sim.model import Model
 
@@ -45,9 +45,10 @@ RULE = (
     'satisfied prerequisite atom); distinct by the whole case.')
 ASSUMPTIONS = [
     'Weakest reading: "preserves" is checked across TaskPool.reload (the '
-    'definition swap) and again at the end of the reload command; the '
-    'runahead flag may legitimately go True->False between the two because '
-    'the command ends with an ordinary runahead release.',
+    'definition swap) and again at the end of the reload command.  The '
+    'command ends with an ordinary runahead release (spawns, flow merges, '
+    're-queueing): when any task event was recorded after the swap only '
+    'submit number, held and completed outputs are compared at the end.',
     '`queued` is compared after the next main-loop iteration (DESIGN 5a), and '
     'only for tasks that are then still waiting, not held, not '
     'runahead-limited, not manually triggered and ready to run, with no '
@@ -225,18 +226,22 @@ def judge_reload(rec, to_str, to_int, classes):
             out.append(Violation(
                 'C27:task-appeared-in-pool',
                 f'{where}: {tid} was not in the pool before the swap'))
-    # end of command
+    # end of command: after the swap the command ends with an ordinary
+    # runahead release (which may spawn, merge flows, re-queue an absorbed
+    # incomplete task); status / flows / runahead are only compared when
+    # nothing of that kind happened after the swap
     E = rec.get('end')
     if E is not None:
+        quiet_tail = not rec.get('post_swap_activity')
+        classes.add('end-of-command:' + (
+            'nothing-after-swap' if quiet_tail else 'runahead-release-ran'))
+        fields = FIELDS if quiet_tail else ['submit_num', 'held', 'outputs']
         for tid, a in A.items():
             e = E.get(tid)
             if e is None or tid not in B:
                 continue
-            for f in FIELDS:
+            for f in fields:
                 if a[f] == e[f]:
-                    continue
-                if f == 'runahead' and a[f] and not e[f]:
-                    classes.add('runahead-released-at-end-of-reload')
                     continue
                 out.append(Violation(
                     f'C27:not-preserved-at-end-of-command:{f}',
@@ -282,6 +287,10 @@ async def _check(case, ctx: Ctx) -> CaseResult:
                     rec = drv.reload_log[-1]
                     if rec['end'] is None:
                         rec['end'] = snap_pool(sim.schd)
+                        rec['post_swap_activity'] = any(
+                            e['k'] in ('state', 'add', 'remove',
+                                       'rh-release')
+                            for e in sim.trace[rec['n1']:])
                         rec['err'] = ev.get('err')
                         if any(t['status'] == 'preparing'
                                for t in ev['before']):
@@ -335,7 +344,12 @@ async def _check(case, ctx: Ctx) -> CaseResult:
         drv.after_loop.append(after_loop)
         await sc.run_schedule()
         await sc.drain()
-        viol = sc.crash_violations('C27') + viol
+        spin = harness_spin(sim)
+        if spin:
+            classes.add('engine-abort:scheduler-waits-forever-inside-one-call')
+            viol = [v for v in viol
+                    if not v.sig.startswith('C27:reload-command-raised')]
+        viol = crash_violations(sc, 'C27') + viol
         nontrivial = False
         for rec in drv.reload_log:
             viol += judge_reload(rec, drv.to_str, drv.to_int, classes)
@@ -350,7 +364,7 @@ async def _check(case, ctx: Ctx) -> CaseResult:
             uniq.setdefault(v.sig, v)
         return CaseResult(
             list(uniq.values()), nontrivial, sorted(classes),
-            inconclusive=sc.inconclusive,
+            inconclusive=sc.inconclusive or spin,
             info={'flow': drv.flow_text,
                   'reloads': [[r['edit']['kind'] if r['edit'] else None,
                                len(r['before'])] for r in drv.reload_log]})
